@@ -105,7 +105,12 @@ def cmp_rrt(term, rrt, rtol=1e-9):
             want, err = values.eval_term(term, env)
         except values.NotComparable:
             continue
-        got = rrt.func(*[env["q%d" % r] for r in rrt.regrefs])
+        try:
+            got = rrt.func(*[env["q%d" % r] for r in rrt.regrefs])
+            got = complex(got) if isinstance(got, (complex, np.complexfloating)) else float(got)
+        except BaseException as e:      # noqa: BLE001
+            return "the transform's function, called with values for its listed registers %s, does not give a number (%s: %s)" % (
+                rrt.regrefs, type(e).__name__, str(e)[:120])
         if abs(got - want) > rtol * abs(want) + 16 * err + 1e-12:
             return "transform gives %r at %s in its listed order %s, specification says %r" % (got, env, rrt.regrefs, want)
     return None
